@@ -762,6 +762,42 @@ func (fc *FC) mergeAt(j *ssa.BasicBlock, valOf func(p *ssa.BasicBlock) *RF) *RF 
 		visiting[b.Index] = true
 		defer delete(visiting, b.Index)
 		var r *RF
+		// a loop that does not contain j is stepped over through its single exit
+		for _, l := range fc.Ctx.Loops() {
+			if l.Header == b && !l.Body[j.Index] {
+				exits := map[int]*ssa.BasicBlock{}
+				var from *ssa.BasicBlock
+				for bi := range l.Body {
+					for _, sc := range fc.Ctx.LiveSuccs(fc.Fn.Blocks[bi]) {
+						if !l.Body[sc.Index] {
+							if _, isP := sc.Instrs[len(sc.Instrs)-1].(*ssa.Panic); isP {
+								continue
+							}
+							exits[sc.Index] = sc
+							from = fc.Fn.Blocks[bi]
+						}
+					}
+				}
+				if len(exits) != 1 {
+					fail = true
+					return s.Bottom()
+				}
+				for _, e := range exits {
+					if e == j {
+						if v, ok := vals[from.Index]; ok {
+							r = v
+						} else {
+							r = valOf(from)
+							vals[from.Index] = r
+						}
+					} else {
+						r = V(e, depth+1)
+					}
+				}
+				memo[b.Index] = r
+				return r
+			}
+		}
 		switch t := b.Instrs[len(b.Instrs)-1].(type) {
 		case *ssa.Jump:
 			r = edge(b, 0, depth)
@@ -948,11 +984,75 @@ func (fc *FC) freeVar(fv *ssa.FreeVar) *RF {
 		if len(stores) == 1 && !other {
 			return pfc.Val(stores[0].Val)
 		}
+		if !other && len(stores) > 1 {
+			// several stores, all of which happen before the closure is created:
+			// the closure sees the cell's value at its creation
+			var mk *ssa.MakeClosure
+			for _, blk := range parent.Blocks {
+				for _, in := range blk.Instrs {
+					if mc, ok := in.(*ssa.MakeClosure); ok && mc.Fn == fc.Fn {
+						mk = mc
+					}
+				}
+			}
+			if mk != nil {
+				late := false
+				for _, st := range stores {
+					if pfc.reaches(mk, st) {
+						late = true
+					}
+				}
+				if !late {
+					t := b.Type().Underlying().(*types.Pointer).Elem()
+					return pfc.cellValue(cellKey{b, -1}, t, mk)
+				}
+			}
+		}
 		return opaque
 	case *ssa.FreeVar:
 		return pfc.freeVar(b)
 	}
 	return opaque
+}
+
+// reaches: can control flow from instruction a to instruction b?
+func (fc *FC) reaches(a, b ssa.Instruction) bool {
+	if a.Block() == b.Block() {
+		for _, in := range a.Block().Instrs {
+			if in == a {
+				// b after a in the same block?
+				after := false
+				for _, in2 := range a.Block().Instrs {
+					if in2 == a {
+						after = true
+						continue
+					}
+					if after && in2 == b {
+						return true
+					}
+				}
+				break
+			}
+		}
+	}
+	seen := map[int]bool{}
+	stack := []*ssa.BasicBlock{}
+	for _, sc := range fc.Ctx.LiveSuccs(a.Block()) {
+		stack = append(stack, sc)
+	}
+	for len(stack) > 0 {
+		x := stack[len(stack)-1]
+		stack = stack[:len(stack)-1]
+		if seen[x.Index] {
+			continue
+		}
+		seen[x.Index] = true
+		if x == b.Block() {
+			return true
+		}
+		stack = append(stack, fc.Ctx.LiveSuccs(x)...)
+	}
+	return false
 }
 
 func closureStoresTo(cf *ssa.Function, fvIdx int) bool {
